@@ -7,7 +7,7 @@ def parseOp (w : String) : Option Op :=
   let a := (parts[1]? >>= String.toNat?).getD 0
   let b := (parts[2]? >>= String.toNat?).getD 0
   match parts.head! with
-  | "lex" => some .lex | "less" => some (.less a) | "more" => some .more | "unput" => some (.unput a)
+  | "lex" => some (.lex (a != 0)) | "less" => some (.less a) | "more" => some .more | "unput" => some (.unput a)
   | "input" => some .input | "reject" => some .reject | "begin" => some (.begin_ a)
   | "push" => some (.push a) | "pop" => some .pop | "top" => some .top | "start" => some .start
   | "setbol" => some (.setbol a) | "atbol" => some .atbol
